@@ -495,7 +495,9 @@ def check(name, goal, kind="ensures", note="", extra=(), fallback_extra=None):
             st, model, be, smt2 = st2, model2, be2 + "+reveal", smt22
             extra = list(extra) + fb
     o = Obl(c.prefix + name, st, model, be, secs, c.path_index, note, smt2, kind)
-    c.obls.append(o)
+    rp = getattr(c, "record_prefixes", None)
+    if rp is None or name.startswith(rp) or not name[:1] == "C":
+        c.obls.append(o)
     if st == "proved":
         # a goal proved under extra (revealed) hypotheses is only valid under them
         if not extra:
@@ -747,6 +749,7 @@ class SI:
     def __hash__(self): return hash(self.e)
     def __bool__(self): return bool(SB(self.e != 0))
     def __repr__(self): return f"SI({self.e})"
+    def __format__(self, spec): return f"<sym:{str(self.e)[:24]}>"
     def __float__(self): raise TypeError("symbolic int has no concrete float value; use the float model")
     def __index__(self):
         v = self.concrete()
@@ -884,6 +887,8 @@ class SR:
         raise Unsupported(f"real power {n!r}")
 
     def _cmp(self, o, f):
+        if isinstance(o, float) and o in (float("inf"), float("-inf")):
+            return SB(bool(f(0.0, o)))      # every real compares with +-inf like 0.0 does
         p = self._coerce(o)
         return NotImplemented if p is None else SB(f(self.e, p.e))
 
@@ -900,6 +905,7 @@ class SR:
     def __hash__(self): return hash(self.e)
     def __bool__(self): return bool(SB(self.e != 0))
     def __repr__(self): return f"SR({self.e})"
+    def __format__(self, spec): return f"<sym:{str(self.e)[:24]}>"
     def __float__(self):
         v = self.concrete()
         if v is None:
